@@ -367,6 +367,8 @@ def gen_program(rng, nfuncs=None, depth=None, nfiles=None, twins=True, twin_mode
     allf = list(funcs) + ([twin] if twin else []) + extra + compact
     chunks = [[] for _ in range(nfiles)]
     for i, f in enumerate(allf):
+        if f in extra:
+            continue        # the further copies live in files of their own only (one definition per name)
         k = 0 if nfiles == 1 else rng.below(nfiles)
         if twin_mode and twin and f is twin:
             k = 1
